@@ -43,6 +43,8 @@ func main() {
 		}
 		na, np, nv := 14000, 7, 8
 		if *tier == "thorough" {
+			hugeSizes = []int{32767, 32768, 40000, 70000}
+			hugeUA = []int{32767, 32768, 40000, 70000}
 			na, np, nv = 120000, 41, 8
 		}
 		if *ncases > 0 {
